@@ -16,7 +16,7 @@ from ..world import H
 ID = 'C04'
 LEVEL = 'fault_enumeration'
 BUDGET = {'quick': 55, 'thorough': 780}
-SHRINK_LISTS = [('faults', 'list'), ('timed',), ('ops',)]
+SHRINK_LISTS = [('faults', 'list'), ('timed',), ('ops',), ('housekeeping',)]
 
 OUTCOME_KINDS = ('ack', 'sack', 'cack', 'error', 'reject', 'abort')
 
@@ -118,6 +118,12 @@ def check(h):
                                 'sigkey': 'post:' + a['name'], 'sig': dict(sigbase, kind='post-outcome', frame=a['name'], okind=okind)})
                     break
 
+    # C04.b the scheduler that drives every timeout: its next entry must be the earliest pending one
+    sv = getattr(w, 'sched_viol', None)
+    if sv:
+        out.append({'clause': 'C04.b', 'detail': 'at t=%.3f the scheduler is about to wait %.3fs for its next entry although a %s is due in %.3fs (%d entries pending): '
+                    'that timer will fire late' % (sv['t'], sv['head_due_in'], sv['buried'], sv['earliest_due_in'], sv['entries']),
+                    'sigkey': 'scheduler-head-not-earliest', 'sig': {'kind': 'scheduler-head-not-earliest', 'buried': sv['buried']}})
     # C04.c timers of finished transactions, inspected in the instant of every outcome
     for tr in getattr(h, 'timer_residue', [])[:1]:
         out.append({'clause': 'C04.c', 'detail': 'at t=%.3f (outcome at seq %d) the scheduler still holds the timer of a %s %s (peer %s, invoke %s), due in %.3fs'
@@ -301,6 +307,11 @@ def gen_desc(seed, idx):
     retries = rng.randint(0, 3)
     nserv = rng.randint(1, 3)
     mode = rng.choice(['direct', 'direct', 'iocb'])
+    # many timers of mixed magnitude in the one scheduler: more peers, long I/O timeouts, the applications' own timers
+    many_timers = rng.random() < 0.25
+    if many_timers:
+        nserv = rng.randint(3, 6)
+        mode = rng.choice(['direct', 'iocb', 'iocb'])
     stacks = []
 
     def segsup():
@@ -326,6 +337,8 @@ def gen_desc(seed, idx):
         if mode == 'iocb':
             if rng.random() < 0.15:
                 op['iotimeout'] = rng.choice([0.001, 0.5, tout / 1000.0, 20.0])
+            elif many_timers and rng.random() < 0.9:
+                op['iotimeout'] = rng.choice([60.0, 300.0, 300.0])
         ops.append(op)
         if mode == 'iocb' and rng.random() < 0.15:
             ops.append({'t': round(t + rng.choice([0.0, 0.001, 0.3, tout / 1000.0, 2.0]), 4), 'op': 'cancel',
@@ -335,6 +348,9 @@ def gen_desc(seed, idx):
             ops.append({'t': round(t + rng.choice([0.0, 0.0005, 0.2, 1.0]), 4), 'op': 'unconf', 'c': 'c0',
                         's': op['s'] if rng.random() < 0.7 else 's%d' % rng.randrange(nserv)})
     ops.sort(key=lambda o: o['t'])
+    housekeeping = []
+    if many_timers:
+        housekeeping = [rng.choice([2.5, 7.0, 45.0, 300.0, 600.0, 900.0]) + round(rng.random(), 3) for _ in range(rng.randint(3, 10))]
     faults = txngen.fault_profile(rng, tout / 1000.0, tseg / 1000.0)
     timed = []
     if rng.random() < 0.3:
@@ -355,9 +371,17 @@ def gen_desc(seed, idx):
             timed.append({'t': tt, 'kind': 'stall', 'd': rng.choice([0.5, tseg / 1000.0, tout / 1000.0, 30.0])})
         else:
             timed.append({'t': tt, 'kind': 'jump', 'd': -rng.choice([0.5, tout / 1000.0, 30.0])})
+    lat = rng.choice([0.0, 0.0, 0.001, 0.05])
+    if many_timers:
+        # some peers are dead from the start, the others far away: retry timers of the dead ones sit in the heap while
+        # answers of the live ones cancel entries around them
+        if rng.random() < 0.7:
+            for node in rng.sample(['s%d' % i for i in range(nserv)], rng.randint(1, 2)):
+                timed.append({'t': 0.0, 'kind': 'silence', 'node': node})
+        lat = rng.choice([0.0, 0.05, 0.4, 0.9])
     return {'prop': 'C04', 'scenario': 'txn', 'seed': H(seed, 'C04run', idx) & 0x7fffffff, 'stacks': stacks,
-            'net': {'latency': rng.choice([0.0, 0.0, 0.001, 0.05]), 'jitter': rng.choice([0.0, 0.0, 0.002])},
-            'ops': ops, 'faults': faults, 'timed': timed}
+            'net': {'latency': lat, 'jitter': rng.choice([0.0, 0.0, 0.002])},
+            'ops': ops, 'faults': faults, 'timed': timed, 'housekeeping': housekeeping}
 
 
 def run_unit(unit):
